@@ -24,7 +24,8 @@ ASSUMPTIONS = [
     '*_mainprog columns are stored already converted by the cleaning pipeline: unchanged',
 ]
 
-PAIRS = [(1.0, 1234.0), (500.0, 37.0), (2000.0, 9.1e4), (123.4, 123.4 * np.pi)]
+# consecutive entries also repeat a BoxSize with another velocity scale and vice versa: loader state must not leak between catalogues
+PAIRS = [(1.0, 1234.0), (500.0, 37.0), (500.0, 911.0), (2000.0, 911.0), (2000.0, 9.1e4), (123.4, 123.4 * np.pi)]
 
 
 def classify_column(name):
@@ -182,7 +183,7 @@ def check(run):
     rng = run.rng(0)
     ntree = 12 if run.quick else 200
     for k in range(ntree):
-        box, velz = PAIRS[k % 4]
+        box, velz = PAIRS[k % len(PAIRS)]
         lc = k % 6 == 5
         if lc:
             T = gen_catalog.make_lc_tree(rng, H=int(rng.integers(2, 40)), box=box, velz=velz, smallratio=bool(k % 2))
@@ -219,6 +220,27 @@ def check(run):
                         for extra in [x for x in cat.halos.colnames if x != c]:
                             cat.halos.remove_column(extra)
                     check_catalog_pair(run, T, slabs, cleaned, o1, o0, dict(desc, fields=[c]), lc=lc)
+                # a ratio / derived column loaded together with the column it is relative to, in both orders
+                if k < 2 or k % 10 == 0:
+                    for c in names:
+                        cls, info = classify_column(c)
+                        com = c[c.index('_') :] if cls != 'mid' else info
+                        base = info[0] if cls in ('ratio_len', 'ratio_len3', 'ratio_vel') else ('sigmav3d' + com if cls == 'mid' else None)
+                        if base is None:
+                            continue
+                        for req in ([c, base], [base, c]):
+                            kw2 = dict(fields=req) if lc else dict(fields=req, cleaned=cleaned)
+                            o1, e1 = catoracle.load(T['path'], convert_units=True, **kw2)
+                            o0, e2 = catoracle.load(T['path'], convert_units=False, **kw2)
+                            run.ev(2)
+                            run.count('pair_loads', 2)
+                            if e1 or e2:
+                                run.violation('units-load-fails', dict(error=str(e1 or e2)[:200], fields=req, **{k2: v for k2, v in desc.items() if k2 != 'fields'}))
+                                continue
+                            for cat in (o1, o0):
+                                for extra in [x for x in cat.halos.colnames if x not in req]:
+                                    cat.halos.remove_column(extra)
+                            check_catalog_pair(run, T, slabs, cleaned, o1, o0, dict(desc, fields=req), lc=lc)
                 if run.too_many():
                     return
         finally:
